@@ -120,6 +120,12 @@ def check(run):
     rng = random.Random(run.seed)
     # -coverage 1 costs 25x on this model: action coverage is read back in the thorough tier only
     run.model_check("mc/MC_SqPack.tla", "mc/MC_SqPack.cfg", workers=14, coverage=run.tier == "thorough")
+    if run.tier == "thorough":
+        # the same model without the bound on the number of calls: the history variable is hidden by the VIEW, so TLC stops
+        # when no new (layout, memo, last call) state appears - the invariants then hold for histories of every length.
+        # (It finds exactly the states of the bounded run: the bound of 3 calls already saturates the memo.)
+        r = run.model_check("mc/MC_SqPack.tla", "mc/MC_SqPack_all.cfg", workers=14, coverage=False)
+        run.notes["unbounded_histories"] = {"cfg": "mc/MC_SqPack_all.cfg", "distinct_states": r["states"], "fixpoint": True}
     hists, st = tlc_generate("mc/MC_SqPack.tla", "mc/Gen_SqPack.cfg", workers=14)
     run.notes["generator"] = {"histories": len(hists), **st}
     if run.tier == "quick":
